@@ -40,14 +40,16 @@ def entries():
         X = rng.normal(size=(n, 3)); y = rng.normal(size=n)
         return ss.DirectionalConvexHull(low_dim_idx=[0]), dict(X=X, y=y), [('score_samples', dict(X=X, y=y)), ('score_feature_matrix', dict(X=X))]
     E['DirectionalConvexHull'] = dch
-    def pcovr(space):
+    def pcovr(space, user_regressor=False):
         def f(rng, size):
             n, m = (10, 4) if size == 0 else (8, 3)
             X, Y = _data(rng, n, m)
             X = X - X.mean(0); Y = Y - Y.mean(0)
-            return PCovR(mixing=0.5, n_components=2, space=space), dict(X=X, Y=Y), [('transform', dict(X=X)), ('predict', dict(X=X)), ('score', dict(X=X, y=Y)), ('inverse_transform', dict(T=X[:, :2]))]
+            from sklearn.linear_model import Ridge
+            kw = dict(regressor=Ridge(alpha=0.05, fit_intercept=False)) if user_regressor else {}
+            return PCovR(mixing=0.5, n_components=2, space=space, **kw), dict(X=X, Y=Y), [('transform', dict(X=X)), ('predict', dict(X=X)), ('score', dict(X=X, y=Y)), ('inverse_transform', dict(T=X[:, :2]))]
         return f
-    E['PCovR[feature]'] = pcovr('feature'); E['PCovR[sample]'] = pcovr('sample')
+    E['PCovR[feature]'] = pcovr('feature'); E['PCovR[sample]'] = pcovr('sample'); E['PCovR[sample,user-regressor]'] = pcovr('sample', True)
     def kpcovr(kernel, center):
         def f(rng, size):
             n, m = (10, 4) if size == 0 else (8, 3)
@@ -159,6 +161,9 @@ def relayout(a, layout):
 def snap(v):
     if isinstance(v, np.ndarray): return (v.shape, v.dtype.str, v.tobytes())
     if isinstance(v, (list, tuple)): return tuple(snap(x) for x in v)
+    if hasattr(v, 'get_params') and hasattr(v, '__dict__'):
+        # an estimator object handed in as a hyper-parameter: its own attributes (a fit would add learned ones) are part of its value
+        return (repr(v), tuple(sorted(k for k in vars(v))))
     return repr(v)
 
 def call_pure(fn, kw, sig):
